@@ -25,6 +25,7 @@
  *   new       arg.level arg.frames_per_stack        (units init, new, destroy)
  *   dump      -                                     (units dump, cb_*)
  *   all ops:  tracer.level | tracer_wrapper.level | arg.level,  tracer.frames_per_stack | tracer_wrapper.frames_per_stack
+ *   (linked with -Wl,--wrap=aws_backtrace: the tracer's backtraces come from the scripted __wrap_aws_backtrace below)
  */
 #include <aws/common/allocator.h>
 #include <aws/common/common.h>
@@ -32,6 +33,17 @@
 #include <stdio.h>
 #include <stdlib.h>
 #include <string.h>
+
+/* The depth of the backtrace is an input of the tracer at level STACKS (the units leave it arbitrary: 1..requested frames).
+ * The replay entry links with -Wl,--wrap=aws_backtrace, so the calls that source/memtrace.c makes to aws_backtrace reach
+ * this scripted one: depth and call site are chosen by the scenario. */
+static size_t s_bt_depth = 64;
+static uintptr_t s_bt_site = 1;
+size_t __wrap_aws_backtrace(void **frames, size_t num) {
+    size_t n = s_bt_depth < num ? s_bt_depth : num;
+    for (size_t i = 0; i < n; ++i) frames[i] = (void *)(0x100000 * s_bt_site + 16 * i + 8);
+    return n;
+}
 
 const char *__asan_default_options(void) { return "detect_leaks=0"; }
 
@@ -135,6 +147,11 @@ static void expect_call(size_t before, const char *what, const void *p, size_t a
     else if (strcmp(w_what, what) || w_ptr != p || w_a != a || w_b != b)
         FAIL("%s: the wrapped allocator saw %s(%p, %zu, %zu), expected %s(%p, %zu, %zu)", when, w_what, w_ptr, w_a, w_b, what, p, a, b);
 }
+/* a dump walks every recorded stack (level STACKS) and must leave the accounting alone */
+static void dump_and_check(struct aws_allocator *t, int level, const char *when) {
+    aws_mem_tracer_dump(t);
+    check_totals(t, level, when);
+}
 static const char *lname(int l) { return l == AWS_MEMTRACE_NONE ? "NONE" : l == AWS_MEMTRACE_BYTES ? "BYTES" : "STACKS"; }
 
 static void scenario(const char *op, int level, size_t fps) {
@@ -161,9 +178,10 @@ static void scenario(const char *op, int level, size_t fps) {
     /* a table that is not empty: three live blocks from different call sites */
     void *pre[3];
     static const size_t pre_size[3] = {24, 1000, 7};
-    pre[0] = aws_mem_acquire(t, pre_size[0]); ref_add(pre[0], pre_size[0]);
-    pre[1] = aws_mem_calloc(t, 10, 100); ref_add(pre[1], pre_size[1]);
-    pre[2] = aws_mem_acquire(t, pre_size[2]); ref_add(pre[2], pre_size[2]);
+    s_bt_site = 2; pre[0] = aws_mem_acquire(t, pre_size[0]); ref_add(pre[0], pre_size[0]);
+    s_bt_site = 3; pre[1] = aws_mem_calloc(t, 10, 100); ref_add(pre[1], pre_size[1]);
+    s_bt_site = 2; pre[2] = aws_mem_acquire(t, pre_size[2]); ref_add(pre[2], pre_size[2]); /* a known stack */
+    s_bt_site = 4;
     check_totals(t, level, "after three allocations");
 
     if (!strcmp(op, "acquire")) {
@@ -176,6 +194,7 @@ static void scenario(const char *op, int level, size_t fps) {
         if (!p) FAIL("acquire returned NULL");
         else { memset(p, 0x5A, real_of(n)); ref_add(p, n); }
         check_totals(t, level, "after acquire");
+        dump_and_check(t, level, "after a dump that follows the acquire");
         if (p) { aws_mem_release(t, p); ref_del(p); check_totals(t, level, "after releasing the block again"); }
     } else if (!strcmp(op, "calloc")) {
         size_t num = get3("arg.num", "arg.num_wrapper", "r_num", 8), size = get3("arg.size", "arg.size_wrapper", "r_size", 512);
@@ -193,6 +212,7 @@ static void scenario(const char *op, int level, size_t fps) {
             ref_add(p, (size_t)tot);
         }
         check_totals(t, level, "after calloc");
+        dump_and_check(t, level, "after a dump that follows the calloc");
         if (p) { aws_mem_release(t, p); ref_del(p); check_totals(t, level, "after releasing the block again"); }
     } else if (!strcmp(op, "release")) {
         size_t n = get3("g_mt_size", "r_size", NULL, 5ull << 30);
@@ -232,6 +252,7 @@ static void scenario(const char *op, int level, size_t fps) {
             for (size_t i = 0; i < keep; ++i) if (((uint8_t *)q)[i] != (uint8_t)(i * 31 + 7)) { FAIL("realloc: byte %zu of the old contents lost", i); break; }
         }
         check_totals(t, level, "after realloc");
+        dump_and_check(t, level, "after a dump that follows the realloc");
         if (q) { aws_mem_release(t, q); ref_del(q); check_totals(t, level, "after releasing the resized block"); }
     } else if (!strcmp(op, "query")) {
         printf("queries\n");
@@ -266,12 +287,16 @@ int main(int argc, char **argv) {
     int level = level_key();
     size_t fps = get3("tracer.frames_per_stack", "tracer_wrapper.frames_per_stack", "arg.frames_per_stack", 8);
     if (fps > 1000) fps = 200; /* clamped to 128 by the tracer anyway */
-    if (level >= 0) {
-        scenario(op, level, fps);
-        /* frames_per_stack == 1 is a case of its own (unit track_fps1) */
-        if (!s_fail && level == AWS_MEMTRACE_STACKS && fps != 1 && (!strcmp(op, "acquire") || !strcmp(op, "calloc"))) scenario(op, level, 1);
-    } else {
-        for (int l = AWS_MEMTRACE_NONE; l <= AWS_MEMTRACE_STACKS; ++l) scenario(op, l, fps);
+    for (int l = AWS_MEMTRACE_NONE; l <= AWS_MEMTRACE_STACKS; ++l) {
+        if (level >= 0 && l != level) continue; /* a level that the trace does not give: all three */
+        if (l != AWS_MEMTRACE_STACKS) { scenario(op, l, fps); continue; }
+        /* level STACKS: backtraces of every interesting depth (full, exactly the two skipped frames, one frame, one more
+         * than is kept), and frames_per_stack == 1 as a case of its own (unit track_fps1) */
+        size_t eff = fps == 0 ? 8 : fps > 128 ? 128 : fps;
+        size_t depths[4] = {eff + 2, 2, 1, eff + 1};
+        for (int d = 0; d < 4 && !s_fail; ++d) { s_bt_depth = depths[d]; printf("[backtrace depth %zu] ", s_bt_depth); scenario(op, l, fps); }
+        if (fps != 1)
+            for (size_t d = 1; d <= 3 && !s_fail; ++d) { s_bt_depth = d; printf("[backtrace depth %zu] ", s_bt_depth); scenario(op, l, 1); }
     }
     if (s_fail) return 1;
     printf("held natively on this input\n");
